@@ -219,7 +219,8 @@ pub struct TreeOpts {
     pub xml_ids: bool,
     /// re-declare in-scope bindings and add alias prefixes (material for deduplication)
     pub redundant_decls: bool,
-    /// prefix pool includes non-ASCII prefixes
+    /// prefix pool includes non-ASCII prefixes, local names include id / lang / space / xmlnsx
+    /// (names that look like the special xml:* attributes and declarations without being them)
     pub wide_prefixes: bool,
 }
 
@@ -264,6 +265,9 @@ impl TreeOpts {
     }
 }
 
+/// XML_LOCALS plus names that look like the `xml:*` attributes / declarations without being them
+const XML_LOCALS_WIDE: &[&str] = &["a", "b", "c", "é", "名", "x-1", "y.z", "_u", "A", "id", "lang", "space", "xmlnsx", "Id"];
+
 fn locals(n: Names) -> &'static [&'static str] {
     match n {
         Names::Xml => XML_LOCALS,
@@ -295,7 +299,7 @@ fn prefixes(o: &TreeOpts) -> &'static [&'static str] {
 }
 
 pub fn gen_qname(src: &mut Src, o: &TreeOpts, attribute: bool) -> QName {
-    let ls = locals(o.names);
+    let ls = if o.wide_prefixes && matches!(o.names, Names::Xml) { XML_LOCALS_WIDE } else { locals(o.names) };
     let us = uris(o);
     let local = ls[src.choice(ls.len())];
     // names without namespace are the common case
